@@ -261,6 +261,22 @@ func Generate(family string, seed int64, idx int) Scenario {
 		p.MaxAppend = pick(r, 1, 4, 64)
 		sc.Clients = 0
 		sc.Script = "snapterm"
+	case "staletn":
+		// C18/C01: a TimeoutNow delivered a second time, late (see scriptStaleTN)
+		p := &sc.P
+		p.Voters, p.NonVoters, p.Spares = pick(r, 3, 3, 5, 2), pick(r, 0, 0, 1), 0
+		p.PreVoteOff = make([]bool, p.N())
+		if r.Intn(3) == 0 {
+			for i := range p.PreVoteOff {
+				p.PreVoteOff[i] = true
+			}
+		}
+		p.NotifyBuf = pick(r, 0, 1)
+		p.NotifyDelayMs = pick(r, 0, 5, 50)
+		p.ShutdownOnRemove = false
+		p.RestoreCommitted = false
+		sc.Clients = pick(r, 0, 1, 2)
+		sc.Script = "staletn"
 	case "xfervote":
 		// C01/C06: a leadership-transfer candidate and an ordinary candidate compete for the same
 		// term, and a voter that has already voted gets the other one's request late
